@@ -157,7 +157,9 @@ var ForgedKinds = []string{"otherkey", "forgedsig", "sigflip", "payload", "revea
 	"forgedsig+swapdelta", "forgedsig+nodelta", "forgedsig+disabled", "forgedsig+failpatch",
 	// the request reveals the legitimate key, the signed part is the attacker's and consistent in itself (own key,
 	// own key's reveal value where the signed data carries one)
-	"revealmismatch+signedreveal"}
+	"revealmismatch+signedreveal",
+	// a copy of a correctly signed operation with bytes appended to its signature
+	"sigextend"}
 
 // Forge makes an unauthorised variant of the given type against the current keys.
 func (d *DID) Forge(ty operation.Type, kind string, n int) Spec {
@@ -193,6 +195,8 @@ func (d *DID) Forge(ty operation.Type, kind string, n int) Spec {
 	case "forgedsig+failpatch":
 		s.SignWith = stranger
 		s.Patches, s.DValid, s.PatchOK = FailingPatches(), true, false
+	case "sigextend":
+		s.Tamper = TSigExtend
 	case "sigflip":
 		s.Tamper = TSigFlip
 	case "payload":
